@@ -109,6 +109,19 @@ class PT:
         return [self.getitem(eng, k) for k in range(n)]
 
     def getitem(self, eng, k):
+        import numpy as _np
+        if isinstance(k, _np.ndarray) and k.dtype == bool or (isinstance(k, list) and k and all(isinstance(x, (bool, _np.bool_)) for x in k)):
+            # boolean mask on the leading axis (concrete mask): the selected positions, in order
+            mask = [bool(x) for x in (k.tolist() if isinstance(k, _np.ndarray) else k)]
+            if not isinstance(self.shape[0], int) or len(mask) != self.shape[0]:
+                raise PyRaise(IndexError, ("boolean index did not match",))
+            pos = [i for i, m in enumerate(mask) if m]
+            src = self
+            return PT((len(pos),) + self.shape[1:], lambda idx: src.fn((_pick(pos, idx[0]),) + tuple(idx[1:])), self.kind)
+        if isinstance(k, _np.ndarray) and _np.issubdtype(k.dtype, _np.integer) and k.ndim == 1:
+            pos = [int(x) for x in k.tolist()]
+            src = self
+            return PT((len(pos),) + self.shape[1:], lambda idx: src.fn((_pick(pos, idx[0]),) + tuple(idx[1:])), self.kind)
         ks = k if isinstance(k, tuple) else (k,)
         # expand Ellipsis
         if any(x is Ellipsis for x in ks):
@@ -163,6 +176,33 @@ class PT:
             return fn(())
         return PT(new_shape, fn, self.kind)
 
+    def setitem(self, eng, k, v):
+        """in-place update a[mask] = value with a (possibly symbolic) boolean mask over the leading axis"""
+        import numpy as _np
+        if isinstance(k, _np.ndarray):
+            k = k.tolist()
+        if isinstance(k, list) and isinstance(self.shape[0], int) and len(k) == self.shape[0] and self.ndim == 1:
+            conds = [eng.to_bool(x) for x in k]
+            old = self.fn
+            val = eng.to_real(v) if not isinstance(v, PT) else None
+            if val is None:
+                raise Unsupported("masked assignment of a tensor value")
+
+            def fn(idx, old=old):
+                j = idx[0]
+                jc = j if isinstance(j, int) else (z3.simplify(j).as_long() if z3.is_int_value(z3.simplify(j)) else None)
+                if jc is not None:
+                    c = conds[jc]
+                    return val if c is True else (old(idx) if c is False else z3.If(c, val, old(idx)))
+                r = old(idx)
+                for jj, c in enumerate(conds):
+                    cc = z3.BoolVal(c) if isinstance(c, bool) else c
+                    r = z3.If(z3.And(j == jj, cc), val, r)
+                return r
+            self.fn = fn
+            return
+        raise Unsupported(f"item assignment on tensor with key {type(k).__name__}")
+
     def boxed(self, eng):
         """Obj view of a tensor: a term determined by shape and the generic element"""
         idx = [z3.Int(f"bx!{k}") for k in range(self.ndim)]
@@ -175,6 +215,30 @@ class PT:
         arr = z3.Lambda(idx, body)
         f = ufunc(f"tensor{self.ndim}", arr.sort(), *([I] * self.ndim), Obj)
         return f(arr, *[d if is_z(d) else z3.IntVal(d) for d in self.shape])
+
+
+def _symbolic(x, depth=0):
+    from .values import Rec, FuncV, Bound
+    if is_z(x) or isinstance(x, (PT, SeqV, SymList)):
+        return True
+    if isinstance(x, (FuncV, Bound, Rec)):
+        return True          # interpreted callables / objects cannot be handed to native code
+    if depth < 6 and isinstance(x, (list, tuple)):
+        return any(_symbolic(e, depth + 1) for e in x)
+    if depth < 6 and isinstance(x, dict):
+        return any(_symbolic(e, depth + 1) for e in x.values())
+    return False
+
+
+def _pick(pos, j):
+    """pos[j] for a concrete table pos and a concrete or symbolic index j"""
+    jc = j if isinstance(j, int) else (z3.simplify(j).as_long() if z3.is_int_value(z3.simplify(j)) else None)
+    if jc is not None:
+        return z3.IntVal(pos[jc])
+    r = z3.IntVal(pos[-1]) if pos else z3.IntVal(0)
+    for t in range(len(pos) - 2, -1, -1):
+        r = z3.If(j == t, z3.IntVal(pos[t]), r)
+    return r
 
 
 def scalar_of(eng, x):
@@ -190,6 +254,13 @@ def lift(eng, x, kind=None):
     """view a value as a PT (scalars become 0-d)"""
     if isinstance(x, PT):
         return x
+    import numpy as _np
+    if isinstance(x, _np.ndarray):
+        kind = "bool" if x.dtype == bool else ("int" if _np.issubdtype(x.dtype, _np.integer) else "real")
+        t = from_nested(eng, x.tolist()) if x.ndim else lift(eng, x.item())
+        return t if (not isinstance(t, PT) or t.kind == kind or x.size == 0) else t
+    if isinstance(x, _np.generic):
+        x = x.item()
     if isinstance(x, (list, tuple)):
         return from_nested(eng, x)
     if isinstance(x, bool) or is_zbool(x):
@@ -205,6 +276,9 @@ def lift(eng, x, kind=None):
 
 def from_nested(eng, x):
     """tensor from nested python lists of scalars / tensors"""
+    import numpy as _np
+    if isinstance(x, _np.ndarray):
+        return lift(eng, x)
     if not isinstance(x, (list, tuple)):
         return lift(eng, x)
     if len(x) == 0:
@@ -428,10 +502,29 @@ class TensorLib:
         if name in ("name", "precision", "default_do_grad", "dtypemap"):
             return getattr(self, name)
         m = getattr(self, "op_" + name, None)
-        if m is None:
+        native = getattr(self.native_backend(), name, None)
+        if m is None and native is None:
             raise Unsupported(f"tensorlib.{name} has no op contract")
-        self.used.add(name)
-        return NativeFn("tensorlib." + name, m)
+
+        def dispatch(*a, **k):
+            # fully concrete arguments: the real numpy backend of the tree under test is executed by CPython
+            if native is not None and not any(_symbolic(x) for x in a) and not any(_symbolic(x) for x in k.values()) \
+                    and name not in ("conditional",):
+                try:
+                    return native(*a, **k)
+                except (ValueError, TypeError, IndexError, KeyError) as e:
+                    raise PyRaise(type(e), e.args)
+            if m is None:
+                raise Unsupported(f"tensorlib.{name} has no op contract")
+            self.used.add(name)
+            return m(*a, **k)
+        return NativeFn("tensorlib." + name, dispatch)
+
+    def native_backend(self):
+        if getattr(self, "_native", None) is None:
+            from pyhf.tensor.numpy_backend import numpy_backend
+            self._native = numpy_backend(precision="64b")
+        return self._native
 
     # -- construction / conversion
     def op_astensor(self, x, dtype="float"):
@@ -697,15 +790,35 @@ class TensorLib:
 
     def op_poisson_dist(self, rate):
         from .values import Rec
-        return _Dist("poisson", (rate,))
+        return _Dist("poisson", (rate,), self)
 
     def op_normal_dist(self, mu, sigma):
-        return _Dist("normal", (mu, sigma))
+        return _Dist("normal", (mu, sigma), self)
 
 
 class _Dist:
-    def __init__(self, family, params):
-        self.family, self.params = family, params
+    """backend distribution object (numpy_backend._BasicPoisson/_BasicNormal as proved in C04):
+    log_prob forwards to poisson_logpdf / normal_logpdf, sample to an uninterpreted sampler"""
+
+    def __init__(self, family, params, lib=None):
+        self.family, self.params, self.lib = family, params, lib
+
+    def getattr(self, eng, name):
+        from .values import NativeFn
+        if name == "log_prob":
+            if self.family == "poisson":
+                return NativeFn("dist.log_prob", lambda value: self.lib.op_poisson_logpdf(value, self.params[0]))
+            return NativeFn("dist.log_prob", lambda value: self.lib.op_normal_logpdf(value, self.params[0], self.params[1]))
+        if name == "sample":
+            def sample(sample_shape=()):
+                f = ufunc("sample:" + self.family, Obj, Obj, Obj)
+                return f(eng.box(list(self.params)), eng.box(sample_shape))
+            return NativeFn("dist.sample", sample)
+        if name in ("rate", "loc") and self.params:
+            return self.params[0]
+        if name == "scale" and len(self.params) > 1:
+            return self.params[1]
+        raise Unsupported(f"distribution attribute {name}")
 
 
 def _mul_dim(d, r):
@@ -852,6 +965,14 @@ def einsum(eng, subscripts, ts):
     ins = lhs.split(",")
     if len(ins) != len(ts):
         raise PyRaise(ValueError, ("einsum operand count",))
+    if "..." in subscripts:
+        # ellipsis: the remaining (broadcast) axes get fresh upper-case letters
+        letters = [c for c in "ZYXWVUTSRQPONMLKJIHGFEDCBA" if c not in subscripts]
+        n_extra = max(t.ndim - (len(spec) - 3) for spec, t in zip(ins, ts) if "..." in spec)
+        ell = "".join(letters[:n_extra])
+        ins = [spec.replace("...", ell[len(ell) - (t.ndim - (len(spec) - 3)):] if "..." in spec else "") if "..." in spec else spec
+               for spec, t in zip(ins, ts)]
+        rhs = rhs.replace("...", ell)
     extent = {}
     for spec, t in zip(ins, ts):
         if len(spec) != t.ndim:
